@@ -206,6 +206,42 @@ def record_pipeline(b, world, intended, *, inner_fraction, ms=(0,), ks=(), radiu
                     s2 = to_int((row['std'] * denom) ** 2 * (k - 1) * k, tol=1e-5)
                     sums.append([codes[la], codes[lb], s1, s2])
                 add('Rates', k=k, labels=lab_seq, sums=sums)
+    # the same questions again, after thresholded graph queries, rates, splits: answers must not have changed
+    for m in ms:
+        j = jumps_or_none(tr, m)
+        if j is None or 'Edges' not in want:
+            continue
+        for kwg in ({'max_e_act': 0.05}, {'min_e_act': 0.3}, {'min_e_act': 0.1, 'max_e_act': 0.2}):
+            j.to_graph(**kwg)
+        j2 = jumps_or_none(tr, m)          # a second Jumps object of the same transitions must agree as well
+        for jj, tag in ((j, 'again'), (j2, 'second-object')):
+            g = jj.to_graph()
+            add('Edges', m=m, edges=[[int(u), int(v)] for u, v in g.edges], when=tag)
+            add('Matrix', kind='jumps', m=m, S=S, M=np.asarray(jj.matrix()).astype(int).tolist(), njumps=int(jj.n_jumps), when=tag)
+            cnt = jj.counter()
+            add('Counter', m=m, labels=lab_seq, counts=[[codes[a], codes[c], int(n)] for (a, c), n in sorted(cnt.items())], when=tag)
+    # nested split: a part is itself split again (its event table no longer carries the pristine row index)
+    if 'Split' in want and ks and len(ev_rows) >= 4:
+        k1 = 2
+        try:
+            outer = tr.split(k1)
+        except ValueError:
+            outer = []
+        for part in outer:
+            prow_whole = rows_of(part.events, EV_COLS)
+            for k2 in (2, 3):
+                if len(prow_whole) < k2 or len(part.states) < k2 + 1:
+                    continue
+                sub = part.split(k2)
+                srows = [rows_of(p.events, EV_COLS) for p in sub]
+                offs = find_offsets(prow_whole, srows, len(part.states))
+                m = ms[0] if ms else 0
+                P = []
+                for p, rows, o in zip(sub, srows, offs):
+                    pj = jumps_or_none(p, m)
+                    P.append({'hist': hist_of(p.states, p.inner_states) if len(p.states) else [], 'rows': rows, 'offset': int(o),
+                              'jumps': rows_of(pj.data, J_COLS) if pj is not None else []})
+                add('Split', k=k2, m=m, parts=P, whole=prow_whole, whist=hist_of(part.states, part.inner_states), nested=True)
     return recs, tr
 
 
